@@ -341,7 +341,7 @@ def run_one(seed, preset=None, tier="quick", want_case=False):
     r["case_digest"] = run_digest(repr(text), repr(op_name), repr(variables), detail)
     has_errors = isinstance(out.resp, dict) and bool(out.resp.get("errors"))
     r["nontrivial"] = bool(not viol and (has_errors or kind != "valid"))
-    r["sched_kinds"] = {sched[0]: 1}
+    r["sched_kinds"] = {sched[0] + ("+eager" if sched[2].endswith("+eager") else ""): 1}
     r["faults"] = {"call_" + kind: 1}
     for k, n in plan.faults_fired.items():
         r["faults"][k] = r["faults"].get(k, 0) + n
